@@ -342,7 +342,8 @@ def run(repo, rep, tier):
             rep.finding(rr, e.func, e.construct, e.exc, e.file, e.line,
                         why + ': enabling the observer turns a working '
                         'operation (or the documented pywbem error) into '
-                        'this exception', path=list(e.chain) + [e.func])
+                        'this exception', path=list(e.chain) + [e.func],
+                        alt=e.construct, alt_func='*')
     # ---- R8: the envelope siblings reset the same bookkeeping -------------
     # _imethodcall, _methodcall and _iexportcall record the request and reset
     # the reply attributes before the transport call, so that a failed
